@@ -57,10 +57,10 @@ def _compat_table(ctx):
     return pairs, ignore, unimpl, ms[0]
 
 
-def _simulate(pairs, ignore, unimpl, arg):
+def _simulate(pairs, ignore, unimpl, arg, prefix_only=True):
     for f, r in pairs:
         if arg.startswith(f):
-            return arg.replace(f, r)
+            return arg.replace(f, r, 1) if prefix_only else arg.replace(f, r)
     for i in ignore:
         if arg.startswith(i):
             return ""
@@ -79,10 +79,26 @@ def ob_compat_table(ctx, res):
     if len(pairs) < 14:
         res.fail("compat/floor", node, "only %d replacement pairs found, expected >= 14" % len(pairs))
         return
-    # macro semantics: first entry whose $find is a prefix wins; all occurrences replaced
+    # macro semantics: first entry whose $find is a prefix wins; which occurrences are rewritten is read from the macro body
     mac = [it for it in ctx.ast.files[CLI]["items"] if isinstance(it, Node) and it.k == "item_macro" and it.get("name") == "compat_replace_mut"]
-    if len(mac) != 1 or "b.starts_with($find)" not in mac[0]["tokens"] or "b.replace($find,$replace)" not in mac[0]["tokens"].replace(" ", ""):
-        res.fail("compat/macro", CLI, "compat_replace_mut! no longer rewrites `starts_with($find)` arguments with `replace($find, $replace)`")
+    mt = mac[0]["tokens"].replace(" ", "") if len(mac) == 1 else ""
+    if "b.starts_with($find)" not in mt or not ("b.replacen($find,$replace,1)" in mt or "b.replace($find,$replace)" in mt):
+        res.fail("compat/macro", CLI, "compat_replace_mut! no longer rewrites `starts_with($find)` arguments with replace/replacen($find, $replace)")
+        return
+    prefix_only = "b.replacen($find,$replace,1)" in mt
+    # the value after `=` must survive the rewriting untouched, also when it contains the text of a flag
+    for s_ in NAMED:
+        if s_ not in dict(pairs):
+            continue
+        for val in ("x" + s_ + "1", "a-chrom1", "7"):
+            arg = s_ + "=" + val
+            got = _simulate(pairs, ignore, unimpl, arg, prefix_only)
+            want = dict(pairs)[s_] + "=" + val
+            if got != want and not [v for v in res.violations if v["role"] == "compat/value-rewritten"]:
+                res.fail("compat/value-rewritten", mac[0],
+                         "`%s` is rewritten to `%s` instead of `%s`: the macro replaces EVERY occurrence of the flag text, also inside the value "
+                         "(bigwigtobedgraph -chrom=a-chrom1 looks up `a--chrom1`, reports it missing and writes an empty file with exit 0)" % (arg, got, want))
+    if [v for v in res.violations if v["role"] == "compat/value-rewritten"]:
         return
     flags = _command_flags(ctx)
     # the commands that go through compat rewriting
@@ -94,7 +110,7 @@ def ob_compat_table(ctx, res):
             res.fail("compat/%s/missing" % s, node, "UCSC spelling `%s` has no rewrite" % s)
             continue
         for suffix in ("", "=7"):
-            got = _simulate(pairs, ignore, unimpl, s + suffix)
+            got = _simulate(pairs, ignore, unimpl, s + suffix, prefix_only)
             want = table[s] + suffix
             if got != want:
                 res.fail("compat/%s/shadowed" % s, node, "`%s` is rewritten to `%s` (an earlier entry matches first), expected `%s`" % (s + suffix, got, want))
